@@ -52,6 +52,31 @@ def new_db(kind="posc"):
     return db
 
 
+def skewed_db():
+    """A database of the kind a project defines for itself: it uses symbols and category names of the shipped table
+    with *other* factors and fewer units (cm = 50 m, ft = 2 m, km = m/250, degC = K - 100, min = 10 s, h = 100 s; no
+    'mi', no 'in').  Alive next to the shipped one, and sometimes the current one, it makes visible what is looked up
+    in "the database that happens to be current" where an object's own database is meant."""
+    from barril.units import UnitDatabase
+
+    db = UnitDatabase()
+    db.AddUnitBase("length", "meters", "m")
+    db.AddUnit("length", "centimeters", "cm", "%f * 50.0", "%f / 50.0")
+    db.AddUnit("length", "feet", "ft", "%f * 2.0", "%f / 2.0")
+    db.AddUnit("length", "kilometers", "km", lambda x: x / 250.0, lambda x: x * 250.0)
+    db.AddUnitBase("temperature", "Kelvin", "K")
+    db.AddUnit("temperature", "Celsius", "degC", "%f - 100.0", "%f + 100.0")
+    db.AddUnit("temperature", "Fahrenheit", "degF", "%f * 2.0 - 50.0", "(%f + 50.0) / 2.0")
+    db.AddUnitBase("time", "seconds", "s")
+    db.AddUnit("time", "minutes", "min", "%f / 10.0", "%f * 10.0")
+    db.AddUnit("time", "hours", "h", "%f / 100.0", "%f * 100.0")
+    db.AddCategory("length", "length")
+    db.AddCategory("depth", "length", default_unit="ft", min_value=-5.0, max_value=5.0)
+    db.AddCategory("temperature", "temperature")
+    db.AddCategory("time", "time")
+    return db
+
+
 def clear_caches(db):
     """Empty the database's memo tables so that a reused database starts cold.  The tables are implementation
     details (one of them private): when the tree under test names them differently, answer False and let the
